@@ -218,7 +218,7 @@ fn numbers_in(text: &str) -> Vec<u64> {
 /// name or, failing that, the wording of `Display`); a map error carries exactly one number -
 /// the element index - in its `Display` (or `Debug`) text, whatever the wording. The cause is its
 /// `source()`.
-fn step_of<E: std::error::Error + 'static>(e: &E, combinator: &str) -> DynErr {
+fn step_json(e: &(dyn std::error::Error + 'static), combinator: &str) -> Value {
     let mut dbg = format!("{e:?}");
     let mut msg = e.to_string();
     if let Some(src) = e.source() {
@@ -226,7 +226,7 @@ fn step_of<E: std::error::Error + 'static>(e: &E, combinator: &str) -> DynErr {
         msg = msg.replace(&src.to_string(), "");
         dbg = dbg.replace(&format!("{src:?}"), "");
     }
-    let step = if combinator == "map" {
+    if combinator == "map" {
         let mut nums = numbers_in(&msg);
         if nums.is_empty() {
             nums = numbers_in(&dbg);
@@ -245,7 +245,11 @@ fn step_of<E: std::error::Error + 'static>(e: &E, combinator: &str) -> DynErr {
             (false, true) => json!({"s": "second", "i": 0}),
             _ => json!({"s": "unknown", "i": 0, "display": msg, "debug": dbg}),
         }
-    };
+    }
+}
+
+fn step_of<E: std::error::Error + 'static>(e: &E, combinator: &str) -> DynErr {
+    let step = step_json(e, combinator);
     let inner = e.source().and_then(|s| s.downcast_ref::<DynErr>()).map_or_else(
         || vec![json!({"s": "lost", "i": 0})],
         |d| match d {
@@ -256,6 +260,34 @@ fn step_of<E: std::error::Error + 'static>(e: &E, combinator: &str) -> DynErr {
     let mut p = vec![step];
     p.extend(inner);
     DynErr::Path(p)
+}
+
+/// The error of a composition whose parts are nested DIRECTLY (the repository's combinator types inside one
+/// another, no harness closure in between): one step per level; the expression says which combinator each level
+/// is (a repetition adds no level: its error is its part's error).
+fn nested_path(e: &(dyn std::error::Error + 'static), expr: &Value) -> Vec<Value> {
+    if let Some(d) = e.downcast_ref::<DynErr>() {
+        return match d {
+            DynErr::Leaf(id) => vec![json!({"s": "leaf", "i": id})],
+            DynErr::Path(p) => p.clone(),
+        };
+    }
+    let op = expr["op"].as_str().unwrap_or("");
+    if op == "rep" {
+        return nested_path(e, &expr["a"]);
+    }
+    let step = step_json(e, if op.starts_with("map") { "map" } else { "bin" });
+    let child = match step["s"].as_str() {
+        Some("first" | "elem") => &expr["a"],
+        Some("second") => &expr["b"],
+        _ => &Value::Null,
+    };
+    let mut p = vec![step.clone()];
+    match e.source() {
+        Some(src) if !child.is_null() => p.extend(nested_path(src, child)),
+        _ => p.push(json!({"s": "lost", "i": 0})),
+    }
+    p
 }
 
 fn pair(a: Val, b: Val) -> Val {
@@ -338,6 +370,65 @@ fn build(e: &Value, kind: &str) -> DynOp {
                     other => panic!("genome scorer applied to {other:?}"),
                 }))
             }
+        }
+        // DIRECT nestings (the repository's combinator types inside one another, as in a user's pipeline; every
+        // other sub-expression sits behind a harness closure): then / and / map / repetition around a `then`,
+        // `then` around a repetition or an `and`
+        "then" if e["a"]["op"] == "then" => {
+            let (t, ex) = (build(&e["a"]["a"], kind).then(build(&e["a"]["b"], kind)).then(build(&e["b"], kind)), e.clone());
+            DynOp(Box::new(move |x, mut r| t.apply(x, &mut r).map_err(|er| DynErr::Path(nested_path(&er, &ex)))))
+        }
+        "then" if e["b"]["op"] == "then" => {
+            let (t, ex) = (build(&e["a"], kind).then(build(&e["b"]["a"], kind).then(build(&e["b"]["b"], kind))), e.clone());
+            DynOp(Box::new(move |x, mut r| t.apply(x, &mut r).map_err(|er| DynErr::Path(nested_path(&er, &ex)))))
+        }
+        "then" if e["b"]["op"] == "and" => {
+            let (t, ex) = (build(&e["a"], kind).then(build(&e["b"]["a"], kind).and(build(&e["b"]["b"], kind))), e.clone());
+            DynOp(Box::new(move |x, mut r| t.apply(x, &mut r).map(|(a, b)| pair(a, b)).map_err(|er| DynErr::Path(nested_path(&er, &ex)))))
+        }
+        "then" if e["b"]["op"] == "rep" && e["b"]["a"]["op"] != "then" && e["b"]["a"]["op"] != "and" => {
+            let ex = e.clone();
+            macro_rules! direct {
+                ($n:literal) => {{
+                    let t = build(&e["a"], kind).then(build(&e["b"]["a"], kind).apply_n_times::<$n>());
+                    DynOp(Box::new(move |x, mut r| t.apply(x, &mut r).map(|v| Val::L(v.to_vec())).map_err(|er| DynErr::Path(nested_path(&er, &ex)))))
+                }};
+            }
+            match u(&e["b"]["n"]) {
+                0 => direct!(0),
+                1 => direct!(1),
+                2 => direct!(2),
+                _ => direct!(3),
+            }
+        }
+        "and" if e["a"]["op"] == "then" => {
+            let (t, ex) = (build(&e["a"]["a"], kind).then(build(&e["a"]["b"], kind)).and(build(&e["b"], kind)), e.clone());
+            DynOp(Box::new(move |x, mut r| t.apply(x, &mut r).map(|(a, b)| pair(a, b)).map_err(|er| DynErr::Path(nested_path(&er, &ex)))))
+        }
+        "and" if e["b"]["op"] == "then" => {
+            let (t, ex) = (build(&e["a"], kind).and(build(&e["b"]["a"], kind).then(build(&e["b"]["b"], kind))), e.clone());
+            DynOp(Box::new(move |x, mut r| t.apply(x, &mut r).map(|(a, b)| pair(a, b)).map_err(|er| DynErr::Path(nested_path(&er, &ex)))))
+        }
+        "map_t" if e["a"]["op"] == "then" => {
+            let (m, ex) = (Identity.map(build(&e["a"]["a"], kind).then(build(&e["a"]["b"], kind))), e.clone());
+            DynOp(Box::new(move |x, mut r| match x {
+                Val::P(a, b) => m.apply((*a, *b), &mut r).map(|(a, b)| pair(a, b)).map_err(|er| DynErr::Path(nested_path(&er, &ex))),
+                other => panic!("map over a pair applied to {other:?}"),
+            }))
+        }
+        "map_a" if e["a"]["op"] == "then" => {
+            let (m, ex) = (Identity.map(build(&e["a"]["a"], kind).then(build(&e["a"]["b"], kind))), e.clone());
+            DynOp(Box::new(move |x, mut r| match x {
+                Val::P(a, b) => m.apply([*a, *b], &mut r).map(|[a, b]| pair(a, b)).map_err(|er| DynErr::Path(nested_path(&er, &ex))),
+                other => panic!("map over an array applied to {other:?}"),
+            }))
+        }
+        "map_v" if e["a"]["op"] == "then" => {
+            let (m, ex) = (Identity.map(build(&e["a"]["a"], kind).then(build(&e["a"]["b"], kind))), e.clone());
+            DynOp(Box::new(move |x, mut r| match x {
+                Val::L(xs) => m.apply(xs, &mut r).map(Val::L).map_err(|er| DynErr::Path(nested_path(&er, &ex))),
+                other => panic!("map over a vector applied to {other:?}"),
+            }))
         }
         "then" => {
             let t = build(&e["a"], kind).then(build(&e["b"], kind));
